@@ -63,6 +63,18 @@ def withScreen (st : DState) (f : Screen → String) : String :=
 
 def slot (st : DState) (k : Nat) : Option Screen := (st.slots.getD k none)
 
+def mouseModeName : MouseMode → String
+  | .none => "None" | .press => "Press" | .pressRelease => "PressRelease"
+  | .buttonMotion => "ButtonMotion" | .anyMotion => "AnyMotion"
+
+def mouseEncName : MouseEnc → String
+  | .default => "Default" | .utf8 => "Utf8" | .sgr => "Sgr"
+
+/-- what the public accessors of `Screen` report (alternate_screen, hide_cursor, the input modes, size,
+cursor_position, scrollback, the pen), in the harness's `pub_str` format -/
+def pubStr (s : Screen) : String :=
+  s!"{b01 s.altScreen}{b01 s.hideCursor} {b01 s.appKeypad}{b01 s.appCursor}{b01 s.bracketedPaste}:{mouseModeName s.mouseMode}:{mouseEncName s.mouseEnc} {s.cur.size.rows},{s.cur.size.cols} {s.cur.pos.row},{s.cur.pos.col} {s.cur.scrollbackOffset} {attrsStr s.attrs}"
+
 def step (W : Nat → Option Nat) (st : DState) (line : String) : DState × String :=
   let toks := line.trimAscii.toString.splitOn " "
   match toks with
@@ -123,7 +135,7 @@ def step (W : Nat → Option Nat) (st : DState) (line : String) : DState × Stri
     match parseScreenToks dump, k.toNat? with
     | some s, some k => ({ st with slots := st.slots.setIfInBounds k (some s) }, "ok")
     | _, _ => (st, "BADDUMP")
-  | ["D"] => (st, withScreen st (fun s => "d " ++ screenStr s))
+  | ["D"] => (st, withScreen st (fun s => "d " ++ screenStr s ++ " pub " ++ pubStr s))
   | ["E"] =>
     match st.parser with
     | some p =>
